@@ -5,9 +5,6 @@ sequence by the clauses on its columns), then the column/child selections by nam
 import seqtab
 from seqtab import NAMES, OPS, POOL, hexs, lit_text, val_sexp, val_text
 
-FINDING = "C17.filter_after_inner_child"
-
-
 def gen_table(rng):
     """header: [(name, kind)] with kind in 'ift' or [(inner name, kind)]; rows: tuples, nested cells = lists of tuples"""
     ncols = rng.randint(1, 4)
@@ -100,8 +97,8 @@ def gen_program(rng, sid, hdr, maxlen=6):
     for _ in range(rng.randint(0, maxlen)):
         r = rng.random()
         wild = rng.random() < 0.1
-        if layout[0] in ("column", "innerColumn") and not wild:
-            r = 0.7 + r * 0.3
+        if layout[0] in ("column", "innerColumn") and not wild and r >= 0.3:
+            r = 0.75 + (r - 0.3) / 0.7 * 0.25      # only clauses and slices apply to a column
         if r < 0.3:
             id1, o, id2, rc = gen_clause(rng, sid, hdr)
             ops.append(("cond", id1, o, id2))
@@ -120,7 +117,7 @@ def gen_program(rng, sid, hdr, maxlen=6):
             if wild and rng.random() < 0.3:
                 ks.append(rng.choice(["nope", ks[0]]))
             ops.append(("list", ks))
-            if layout[0] == "table" and all(k in vis for k in ks) and len(set(ks)) == len(ks):
+            if layout[0] == "table" and all(k in vis for k in ks):
                 layout = ("table", ks)
             elif layout[0] == "innerTable" and all(k in vis for k in ks):
                 layout = ("innerTable", layout[1], ks)
@@ -154,7 +151,8 @@ def _holds(names, row, c1, opsym, rhs):
 
 
 def reference(hdr, rows, ops, resolved):
-    """([expected item list per accepted prefix], index of the first step that is a clause on an inner table or None)"""
+    """([expected item list per accepted prefix], index of the first step that is a clause while the layout is not the
+    outer table — after a child selection — or None); a clause is accepted on every layout"""
     kinds = dict(hdr)
     names = [n for n, _ in hdr]
     layout, oconds, iconds, slices = ("table", list(names)), [], [], []
@@ -195,7 +193,7 @@ def reference(hdr, rows, ops, resolved):
             else:
                 return out, first_inner_cond
         elif k[0] == "list":
-            if layout[0] == "table" and all(x in layout[1] for x in k[1]) and len(set(k[1])) == len(k[1]):
+            if layout[0] == "table" and all(x in layout[1] for x in k[1]):
                 layout = ("table", list(k[1]))
             elif layout[0] == "innerTable" and all(x in layout[2] for x in k[1]):
                 layout = ("innerTable", layout[1], list(k[1]))
@@ -210,9 +208,9 @@ def reference(hdr, rows, ops, resolved):
                 return out, first_inner_cond
             slices.append(k[1:])
         else:
-            if layout[0] not in ("table", "innerTable") or rc is None:
+            if rc is None:
                 return out, first_inner_cond
-            if layout[0] == "innerTable" and first_inner_cond is None:
+            if layout[0] != "table" and first_inner_cond is None:
                 first_inner_cond = n
             if rc[0] == "outer":
                 oconds.append(rc[1:])
